@@ -33,6 +33,26 @@ fn tramp<const ID: usize>(ax: &mut Axecutor, m: SupportedMnemonic) -> Result<Hoo
     }
 }
 
+thread_local! {
+    static FOREIGN_CALLS: std::cell::Cell<u64> = std::cell::Cell::new(0);
+}
+
+/// a hook that is only ever registered on *another* machine (a clone the host set aside): it must never run
+/// on the machine under test
+fn tramp_foreign(_ax: &mut Axecutor, _m: SupportedMnemonic) -> Result<HookResult, Box<dyn Error>> {
+    FOREIGN_CALLS.with(|c| c.set(c.get() + 1));
+    Ok(HookResult::Unhandled)
+}
+
+pub fn foreign_ref() -> &'static RustCallbackFunction {
+    let r: &'static RustCallbackFunction = &tramp_foreign;
+    r
+}
+
+pub fn take_foreign_calls() -> u64 {
+    FOREIGN_CALLS.with(|c| c.replace(0))
+}
+
 pub const MAX_HOOKS: usize = 64;
 
 macro_rules! tramp_table {
